@@ -3,6 +3,7 @@ pub mod checks;
 pub mod dynbook;
 pub mod engine;
 pub mod gen;
+pub mod market;
 pub mod model;
 pub mod obs;
 pub mod ops;
